@@ -11,7 +11,7 @@ def run(ctx):
         if ev['e'] == 'Conv2D' and ev['w'] * ev['h'] > 0:
             return ('conv2d', ev['w'], ev['h'], str(ev['ker2']), ev['cx'], ev['cy'])
         if ev['e'] == 'Box' and ev['w'] * ev['h'] > 0:
-            return (ev['fn'], ev['opt'], ev['w'], ev['h'], ev['K'], ev['anchor'])
+            return (ev['fn'], ev['types'], ev.get('ch', 0), ev['opt'], ev['w'], ev['h'], ev['K'], ev['anchor'])
         if ev['e'] == 'Extend':
             return ('extend', ev['opt'], ev['n'], str(ev['src']))
         return None
@@ -19,7 +19,7 @@ def run(ctx):
     ctx.rule = ('every width 0..6 (quick) / 0..9 (thorough) x height 0..3 / 0..5 x kernel size 1..4 / 1..5 x every centre x all five boundary options, for '
                 'correlate/convolve rows/cols with dynamic kernels (gray8->gray32f, rgb8->rgb32f per channel, gray16s->gray32s with integer accumulators) and fixed-size '
                 'kernels (sizes 3, 5); the source is a sub-view of a larger random image so extend_padded sees real neighbouring pixels; convolve_2d for every kernel '
-                'size 1..3 and centre; extend_row/col/boundary for n = 0..3; box_filter (unit taps, gray8->gray32f) and blur (taps 1/K, K in {1,2,4}, gray8->gray8) for every kernel size, every anchor incl. the default -1 and the four options that need no caller padding, against the two passes as written and the K x K window sum. Integer-valued data, so float accumulators are exact. Non-trivial = non-empty image; '
+                'size 1..3 and centre; extend_row/col/boundary for n = 0..3; box_filter (unit taps, gray8->gray32f and bgr8->rgb32f per colour) and blur (taps 1/K, K in {1,2,4}, gray8->gray8) for every kernel size, every anchor incl. the default -1 and the four options that need no caller padding, against the two passes as written and the K x K window sum. Integer-valued data, so float accumulators are exact. Non-trivial = non-empty image; '
                 'distinct = distinct (function, types, option, shape, kernel, centre, channel).')
     ctx.exhaustive = False
     ctx.assumptions += ['kernel values and pixels are small integers: sums are exact in float', 'out-of-bounds accesses are observed by ASan/UBSan (each case runs in its own child process)']
